@@ -1465,12 +1465,16 @@ class C15(Prop):
     def project(self, case, line):
         # against the model: the program as read back; the byte-for-byte comparisons this property is
         # about are between the implementation's own answers (post / oracle)
+        if case.startswith("FS "):
+            return "FS"          # decided on the implementation's own two answers (post); the model has no file system
         return std_struct(line)
     single_process = False
     rule = ("random expressions biased to many matchers/printers/files, each parsed+compiled 5 times in one process "
             "with unrelated compilations in between, the whole batch in several fresh processes (fresh hash seeds), and "
             "a same-process sequence compile / sleep past a second boundary / compile; compared: every result with the "
-            "model's single answer for the clock reading measured around the call (which bounds the embedded second). "
+            "model's single answer for the clock reading measured around the call (which bounds the embedded second); "
+            "rejected and refused inputs repeat too; the same batch in a process with a logger installed; trees with a "
+            "shared subtree against their unshared equals; compile / create the destination files / compile again. "
             "Non-trivial: at least 2 generated resources or a time test")
 
     def cases(self, tier, rng):
@@ -1512,6 +1516,10 @@ class C15(Prop):
             wrap_ = rng.choice(["%s", "Not %s", "And T Name S78 %s", "Or %s A PrintNull"])
             out.append(("TC 0 - 2f " + wrap_ % ("Dup%s %s" % (opn, t)), "shared-subtree"))
             out.append(("TC 0 - 2f " + wrap_ % ("%s %s %s" % (opn, t, t)), "shared-subtree"))
+        # the state of the host's file system is no input: compile, create every destination file, compile again
+        for t_ in ["-fprint @T@/out", "-fprint @T@/out -o -fprint0 @T@/./out -fprint @T@/d//f", "-name x -fprintf @T@/d/../out '%p'",
+                   "-fprint0 @T@/x -print", "-fprint @T@/./d/f -fprint @T@/d/f", "-fprint @T@", "-fprint @T@/."]:
+            out.append(("FS " + hx(t_), "fs-state"))
         # three repetitions that land in the same process (batch length a multiple of the shard
         # count), two that land in other processes (shifted by one), all with unrelated compilations
         # in between
@@ -1565,6 +1573,10 @@ class C15(Prop):
         from .core import expand_dups
         seen, bad = {}, []
         for c, i, m in results:
+            if c.startswith("FS "):
+                if (i or "").startswith("FS DIFF"):
+                    bad.append((c, "compiling the same input before and after its destination files were created gives different results: " + i[8:400]))
+                continue
             k = strip_epoch(i)
             key = expand_dups(c)      # a tree with a shared subtree and the same tree without sharing are equal inputs
             if key in seen and seen[key] != k:
